@@ -47,6 +47,26 @@ func fixtureTypes() []*engs.Type {
 		out = append(out, engs.Ptr(t.Clone()), engs.Slice(t.Clone()), engs.Map(b("int"), t.Clone()),
 			engs.Struct("S2", "local", f("A", b("int8")), f("b", t.Clone())))
 	}
+	// NAMED basic types in every position where the templates test for a *types.Basic
+	// element (pointer target, slice / array element, map value) inside a struct field and at
+	// top level: `type N int; F *N` must not be treated like `F *int` (the printed literal /
+	// the generated helper has another type). TypesUpTo reaches these only at depth 2 (sampled
+	// in the quick tier).
+	for _, n := range engs.NamedLeaves() {
+		nm := func() *engs.Type { return n.Clone() }
+		for _, pkg := range []string{"local", "ext"} {
+			out = append(out,
+				engs.Struct("S1", pkg, f("A", engs.Ptr(nm()))),
+				engs.Struct("S1", pkg, f("A", b("int")), f("B", engs.Ptr(nm())), f("C", engs.Ptr(b("int")))))
+		}
+		out = append(out,
+			engs.Struct("S1", "local", f("A", engs.Slice(nm()))),
+			engs.Struct("S1", "local", f("A", engs.Array(nm()))),
+			engs.Struct("S1", "local", f("A", engs.Map(b("string"), nm()))),
+			engs.Struct("S1", "local", f("A", engs.Slice(engs.Ptr(nm())))),
+			engs.Struct("S1", "local", f("A", engs.Map(b("int"), engs.Ptr(nm())))),
+			engs.Slice(engs.Ptr(nm())), engs.Map(b("int"), engs.Ptr(nm())), engs.Ptr(engs.Ptr(nm())), engs.Array(engs.Ptr(nm())))
+	}
 	return out
 }
 
